@@ -6,8 +6,8 @@ CONFIG = dict(
              'any branch, Fork into 1-3 clones, Merge, plus direct calls of FloorTime. Streams: ex = every sequence of <=4 (1 h) / <=3 '
              '(24 h at 1970 and at year 1, 7 d) commits with times from 7 offsets around period boundaries x 3 branch shapes; lin/linmono = '
              'one branch, <=12 commits; dag/dagmono = pristine root clone, forks, different suffixes, merge commits replayed on 2-3 '
-             'branches, Merge, emerging roots (dagmono: committer times monotone along every history); sat = times from year 1 to year '
-             '3.6e10 (spans beyond +-292 years); odd = tick sizes 1 ns .. 2^62 ns with nanosecond times; malformed = tick size 0 / '
+             'branches, Merge, emerging roots (dagmono: committer times monotone along every history); far-sat = times from year 1 to year '
+             '3.6e10 (spans beyond +-292 years; the only stream, with corpus-sat/replay-sat, that leaves the range of time.Duration); odd = tick sizes 1 ns .. 2^62 ns with nanosecond times; malformed = tick size 0 / '
              'negative / overflowing, index 0 missing or repeated, replayed root commits, unknown branches; floor = FloorTime alone. '
              'Tick sizes 1 h, 2 h, 5 h, 24 h, 7 d, 30 d. Non-trivial = at least 2 Consume calls; distinct = distinct configuration + '
              'operation list.',
@@ -21,9 +21,10 @@ CONFIG = dict(
             'committer times carry no monotonic clock reading (true of parsed and of fabricated commits)',
             'the formula theorems (C19_start, C19_tick_history, C19_commit_alone, C19_registry_exactly_once) assume the call pattern of Pipeline.Run: '
             'the first consumed commit has index 0 on an existing branch and no other Consume has index 0; tick size > 0',
-            'beyond +-2^63 ns (about 292.47 years) between the start of tick 0 and a commit Time.Sub saturates: the tick is then '
-            'max(prev, (2^63-1) ns quot d) and not the number of elapsed periods (C19_tick, C19_example_saturation); the oracle applies the '
-            'saturating formula there',
+            'known finding F17: beyond +-2^63 ns (about 292.47 years) between the start of tick 0 and a commit Time.Sub saturates and the tick is '
+            'max(prev, (2^63-1) ns quot d), not the number of elapsed periods (C19_tick, C19_tick_refuted_beyond_292_years); the replay judges '
+            'every tick against the exact formula and reports such steps as PROPFAIL "[duration-saturation] ..."; only the -sat streams '
+            'generate such spans, every other stream is kept inside the range by the generator (spanOK)',
         ],
         trusted_base=[
             'hand-written Gallina model coq/theories/Plumbing/Ticks.v of internal/plumbing/ticks.go (Configure, Initialize, Consume, Fork via '
@@ -36,12 +37,13 @@ CONFIG = dict(
                    'from the zero time not after t), C19_tick (tick = max(prev, (t - t0) quot d), = max(prev, floor((t - t0)/d)) inside the '
                    'range of time.Duration, saturated outside, = prev for commits not after t0), C19_monotone (all inputs), C19_previous_tick, '
                    'C19_start / C19_tick_history / C19_commit_alone / C19_registry_exactly_once (runs shaped like Pipeline.Run), '
-                   'C19_registry_listed and C19_registry_scan (all inputs); all closed under the global context. The model is replayed against '
+                   'C19_registry_listed and C19_registry_scan (all inputs), C19_tick_refuted_beyond_292_years (witness of finding F17); all closed under the global context. The model is replayed against '
                    'the real code on every run.',
         level_note='Proved about the model, tied to the Go code by correspondence only. Modelled rather than verified: package time (Round, Sub '
                    'saturation, Add), reflect-based ForkCopyPipelineItem (shallow copy: tick0 pointer and commits map shared, previousTick and '
                    'TickSize copied). Outside the range of time.Duration (more than about 292 years between the first commit\'s period and a '
-                   'commit) the tick is NOT the number of elapsed periods; this is stated (C19_tick, C19_example_saturation), not repaired. '
+                   'commit) the tick is NOT the number of elapsed periods: known finding F17, proved as C19_tick_refuted_beyond_292_years, reported by '
+                   'the replay as [duration-saturation] from the -sat streams, not repaired. '
                    'With non-monotone committer times a replayed merge commit can be listed under two different ticks '
                    '(C19_example_replay_under_two_ticks); a commit without parents that is consumed twice is listed twice.',
         technique='machine-checked proof in Coq over a Gallina model (invariants over all Consume/Fork/Merge sequences with ghost branch histories) '
